@@ -73,4 +73,9 @@ KINDS = {
     'multiline': lambda **kw: MultiGeoLineString(
         [GeoLineString([C(20, 20), C(21, 21)]), GeoLineString([C(1, 3), C(5, 3)])], **kw),
     'multipolygon': lambda **kw: MultiGeoPolygon([poly(SQ2), poly(TRI)], **kw),
+    # members that carry time bounds of their own (far from every interval the checks use): the predicates of the
+    # multi-shape look at the multi-shape's time bounds, never at those of its parts
+    'multipoint_stamped': lambda **kw: MultiGeoPoint([GeoPoint(C(20, 20), dt=to_dt(900 * H)), GeoPoint(C(3, 3), dt=to_dt(901 * H))], **kw),
+    'multipolygon_stamped': lambda **kw: MultiGeoPolygon(
+        [poly(SQ2, dt=TimeInterval(to_dt(900 * H), to_dt(902 * H))), poly(TRI, dt=to_dt(905 * H))], **kw),
 }
